@@ -1,5 +1,6 @@
 /-
-  C21 — the lock-free free lists behave as a concurrent bag: a node obtained by get() is not returned by another
+  C21 — the lock-free free lists behave as a concurrent bag, stated as INVARIANTS (no `Linearizable (bag …)` theorem is
+  proved; histories are judged against the bag specification by tie H): a node obtained by get() is not returned by another
   get() until it has been put() back, and once all threads are quiescent every node that was put and not taken out
   can be obtained again.
   Property theorems only; the models, the invariants and the proofs live in
